@@ -35,4 +35,6 @@ ImplShapesSpec == ImplInit /\ [][ImplNext]_isvars
 
 RefStep == [][Ref!Next]_(Ref!vars)
 ShortcutOn == TRUE      \* for MCGcImplShapes_shortcut.cfg (RescanShortcut <- ShortcutOn): expected to fail
+\* the sanity invariants of the reference, on the abstraction of the implementation state
+RefInv == Ref!TypeOK /\ Ref!NoDangling /\ Ref!WeakSound /\ Ref!EphSound /\ Ref!NestSound
 =============================================================================
